@@ -163,15 +163,16 @@ theorem C08_exact3_strong (s : State) (h : C03_Strong s) (a : FsPath) (rootE : E
 /-- `C08_listing_helpers` without `entriesOf` / `SnapWf` / `SnapOf` hypotheses: `paths`, `dirs`,
     `files` (`maxDepth = some 1`) and `all_*` (`none`) of a real directory `a` succeed and return, in
     lexicographic order and without repetition, exactly the keys strictly below `a` within the depth
-    limit whose entry has the requested kind flag -/
+    limit whose entry is a real file (`file ∧ ¬link`) / a real directory (`dir ∧ ¬link`) — all keys
+    below for `paths` / `all_paths` -/
 theorem C08_listing_helpers_strong (env : Env) (path : Str) (maxDepth : Option Nat) (dirs files : Bool)
     (s : State) (a : FsPath)
     (h : C03_Strong s) (habs : absM env path s = (.ok a, s)) (hdir : isDirP s a = true) :
     ∃ ps, listing env path maxDepth dirs files s = (.ok ps, s) ∧
       ps.Pairwise (fun p q => pathLt p q = true) ∧ ps.Nodup ∧ a ∉ ps ∧
       ∀ p, p ∈ ps ↔ ∃ t e, p = a ++ t ∧ t ≠ [] ∧ t.length ≤ depthCap maxDepth ∧
-        alLookup p s.entries = some e ∧ (files = true → e.file = true) ∧
-        (dirs = true → files = false → e.dir = true) := by
+        alLookup p s.entries = some e ∧ (files = true → e.file = true ∧ e.link = false) ∧
+        (dirs = true → files = false → e.dir = true ∧ e.link = false) := by
   cases hl : alLookup a s.entries with
   | none => unfold isDirP at hdir; rw [hl] at hdir; cases hdir
   | some rootE =>
@@ -186,26 +187,30 @@ theorem C08_listing_walk_order_strong (env : Env) (path : Str) (maxDepth : Optio
     (h : C03_Strong s) (habs : absM env path s = (.ok a, s)) (hdir : isDirP s a = true)
     (hent : entriesOf s a = .ok (rootE, snap)) :
     listing env path maxDepth dirs files s =
-      (.ok ((entriesSpec snap (listingOpts maxDepth dirs files) rootE).map (·.path)), s) := by
+      (.ok (((entriesSpec snap (listingOpts maxDepth dirs files) rootE).filter
+              (fun e => !((dirs || files) && e.link))).map (·.path)), s) := by
   obtain ⟨_, hwf, _, hso⟩ := C08S_entriesOf_correct s h a rootE snap hent
   obtain ⟨ps, h1, h2, _⟩ :=
     C08_listing_helpers env path maxDepth dirs files s a rootE snap h.1 habs hdir hent hwf hso
   rw [h1, h2]
 
-/-- `C08_listing_agrees_with_queries` without snapshot hypotheses -/
+/-- `C08_listing_agrees_with_queries` without snapshot hypotheses (and, since the repair of
+    `listing_includes_links`, without any hypothesis about links): the listed paths are exactly the paths
+    strictly below `a` within the depth limit that exist and satisfy `is_file` (`files` / `all_files`),
+    `is_dir` (`dirs` / `all_dirs`) -/
 theorem C08_listing_agrees_with_queries_strong (env : Env) (path : Str) (maxDepth : Option Nat)
     (dirs files : Bool) (s : State) (a : FsPath) (ps : List FsPath)
     (h : C03_Strong s) (habs : absM env path s = (.ok a, s)) (hdir : isDirP s a = true)
-    (hnolink : ∀ kv ∈ s.entries, a <+: kv.1 → kv.2.link = false)
     (hl : listing env path maxDepth dirs files s = (.ok ps, s)) :
-    ∀ p ∈ ps, ∃ e, alLookup p s.entries = some e ∧
+    ∀ p, p ∈ ps ↔ ∃ t e, p = a ++ t ∧ t ≠ [] ∧ t.length ≤ depthCap maxDepth ∧
+      alLookup p s.entries = some e ∧
       (files = true → (e.file && !e.link) = true) ∧ (dirs = true → files = false → isDirP s p = true) := by
   cases hlk : alLookup a s.entries with
   | none => unfold isDirP at hdir; rw [hlk] at hdir; cases hdir
   | some rootE =>
     obtain ⟨snap, hent, hwf, _, hso⟩ := snapshot_correct s h a rootE hlk
     exact C08_listing_agrees_with_queries env path maxDepth dirs files s a rootE snap ps h.1 habs hdir
-      hent hwf hso hnolink hl
+      hent hwf hso hl
 
 /-- `C08F_entries_op_partial` with `SnapWf` / `InSnap` discharged: the operation `entries(path)` with
     links followed returns the paths of the recursive walk `entriesSpecF` over the snapshot, in
@@ -312,8 +317,8 @@ theorem C08_listing_helpers_reachable (env₀ : Env) (ops : List Op)
     ∃ ps, listing env path maxDepth dirs files (run env₀ Memfs.init ops) = (.ok ps, run env₀ Memfs.init ops) ∧
       ps.Pairwise (fun p q => pathLt p q = true) ∧ ps.Nodup ∧ a ∉ ps ∧
       ∀ p, p ∈ ps ↔ ∃ t e, p = a ++ t ∧ t ≠ [] ∧ t.length ≤ depthCap maxDepth ∧
-        alLookup p (run env₀ Memfs.init ops).entries = some e ∧ (files = true → e.file = true) ∧
-        (dirs = true → files = false → e.dir = true) :=
+        alLookup p (run env₀ Memfs.init ops).entries = some e ∧ (files = true → e.file = true ∧ e.link = false) ∧
+        (dirs = true → files = false → e.dir = true ∧ e.link = false) :=
   C08_listing_helpers_strong env path maxDepth dirs files _ a (C03_strong_reachable env₀ ops hh) habs hdir
 
 theorem C08_listing_agrees_with_queries_reachable (env₀ : Env) (ops : List Op)
@@ -321,13 +326,13 @@ theorem C08_listing_agrees_with_queries_reachable (env₀ : Env) (ops : List Op)
     (env : Env) (path : Str) (maxDepth : Option Nat) (dirs files : Bool) (a : FsPath) (ps : List FsPath)
     (habs : absM env path (run env₀ Memfs.init ops) = (.ok a, run env₀ Memfs.init ops))
     (hdir : isDirP (run env₀ Memfs.init ops) a = true)
-    (hnolink : ∀ kv ∈ (run env₀ Memfs.init ops).entries, a <+: kv.1 → kv.2.link = false)
     (hl : listing env path maxDepth dirs files (run env₀ Memfs.init ops) = (.ok ps, run env₀ Memfs.init ops)) :
-    ∀ p ∈ ps, ∃ e, alLookup p (run env₀ Memfs.init ops).entries = some e ∧
+    ∀ p, p ∈ ps ↔ ∃ t e, p = a ++ t ∧ t ≠ [] ∧ t.length ≤ depthCap maxDepth ∧
+      alLookup p (run env₀ Memfs.init ops).entries = some e ∧
       (files = true → (e.file && !e.link) = true) ∧
       (dirs = true → files = false → isDirP (run env₀ Memfs.init ops) p = true) :=
   C08_listing_agrees_with_queries_strong env path maxDepth dirs files _ a ps
-    (C03_strong_reachable env₀ ops hh) habs hdir hnolink hl
+    (C03_strong_reachable env₀ ops hh) habs hdir hl
 
 theorem C08F_entries_op_reachable (env₀ : Env) (ops : List Op)
     (hh : ∀ pre op post, ops = pre ++ op :: post → (step env₀ (run env₀ Memfs.init pre) op).1 ≠ .hang)
